@@ -184,8 +184,15 @@ func (w *world) apply(ws []string) bool {
 			if a == "execfail" {
 				b.ExecFails = true
 			}
+			if a == "exec=hold" {
+				b.ExecHold = true
+			}
 		}
 		s.Sup.Beh[ws[1]] = b
+	case "release": // release <base>: a held Exec call returns
+		if !s.Sup.ReleaseExec(ws[1]) {
+			return false
+		}
 	case "ext", "int": // ext <name> <call> [args]
 		name := ws[1]
 		call := ws[2]
